@@ -12,6 +12,8 @@ import Cx.DriverUtf8Range
 import Cx.DriverRev
 import Cx.DriverRevSuffix
 import Cx.DriverSeqOps
+import Cx.DriverCompSim
+import Cx.DriverMetaFind
 import Cx.DriverRevInner
 import Cx.DriverRevAnchored
 import Cx.DriverRevSuffixSet
@@ -22,9 +24,9 @@ def tokens (line : String) : List String := (line.trimAscii.toString.splitOn " "
 
 /-- model-specific handlers first, then the core protocol -/
 def handlers : List (List String → Option String) :=
-  [Cx.DriverCompile.handle?, Cx.DriverLit.handle?, Cx.DriverPike.handle?, Cx.DriverFast.handle?, Cx.DriverCompDfa.handle?, Cx.DriverCost.handle?,
+  [Cx.DriverCompile.handle?, Cx.DriverLit.handle?, Cx.DriverPike.handle?, Cx.DriverFast.handle?, Cx.DriverCompDfa.handle?, Cx.DriverCompSim.handle?, Cx.DriverCost.handle?,
    Cx.DriverConfig.handle?, Cx.DriverCaps.handle?, Cx.DriverDfa.handle?, Cx.DriverUtf8Range.handle?, Cx.DriverRev.handle?, Cx.DriverRevSuffix.handle?,
-   Cx.DriverRevInner.handle?, Cx.DriverRevAnchored.handle?, Cx.DriverRevSuffixSet.handle?, Cx.DriverMultilineRevSuffix.handle?, Cx.DriverSeqOps.handle?]
+   Cx.DriverRevInner.handle?, Cx.DriverRevAnchored.handle?, Cx.DriverRevSuffixSet.handle?, Cx.DriverMultilineRevSuffix.handle?, Cx.DriverMetaFind.handle?, Cx.DriverSeqOps.handle?]
 
 def answer (line : String) : String :=
   let toks := tokens line
